@@ -233,6 +233,11 @@ ChildState(P, log) ==
   /\ alog' = <<>> /\ did' = 0 /\ liveS' = <<>> /\ liveT' = <<>>
   /\ UNCHANGED <<chart, started, cur, q, dq, nid, full, trc, hist>>
 
+(* complete_circuit(): next_rtc until the queue is empty; the steps are separate NextRtc actions, this is the return *)
+CircuitEnd ==
+  /\ Queued /\ res' = "" /\ alog' = <<>> /\ did' = 0 /\ liveS' = <<>> /\ liveT' = <<>>
+  /\ UNCHANGED <<chart, started, cur, q, dq, nid, rtc, full, trc, hist>>
+
 ClearSpy ==
   /\ Queued /\ full' = <<>> /\ res' = "" /\ alog' = <<>> /\ did' = 0 /\ liveS' = <<>> /\ liveT' = <<>>
   /\ UNCHANGED <<chart, started, cur, q, dq, nid, rtc, trc, hist>>
